@@ -7,6 +7,7 @@ import (
 	"fmt"
 
 	control "github.com/nspcc-dev/neofs-node/pkg/services/control/ir"
+	"github.com/nspcc-dev/neofs-node/pkg/util/verifhook"
 	neofscrypto "github.com/nspcc-dev/neofs-sdk-go/crypto"
 	neofsecdsa "github.com/nspcc-dev/neofs-sdk-go/crypto/ecdsa"
 )
@@ -57,6 +58,8 @@ func (s *Server) isValidRequest(req SignedMessage) error {
 	}
 
 	sig := neofscrypto.NewSignature(neofscrypto.ECDSA_SHA512, &pubKey, sign.GetSign())
+
+	verifhook.Point("irctl.auth.beforeVerify")
 
 	if !sig.Verify(binBody) {
 		// TODO(@cthulhu-rider): #1387 use "const" error
